@@ -177,6 +177,20 @@ def judge_signal(ctx, c):
     # start value shifts everything
     ctx.close("C20.start-shift", out - start, i0, atol=1e-12 * (scale + abs(start)), case=c, key="C20:start_value")
 
+    # the time axis as stored by loggers: integer seconds (int64 / int32) or float32 - the integral is a float64 series
+    # of the signal all the same (integer-valued copies of this grid, so that every representation is exact)
+    ti = np.round((t - t[0]) / float(np.min(np.diff(t))) * 4).astype("int64") if nt >= 2 else None
+    if ti is not None and nt >= 3 and np.all(np.diff(ti) > 0) and int(ti[-1]) < 2 ** 22:
+        ref = np.asarray(integrate(ti.astype("float64"), x, order, n, start), float)
+        for dtp in ("int64", "int32", "float32"):
+            okd, od = guarded(ctx, "C20.no-exception", lambda: integrate(ti.astype(dtp), x, order, n, start), c,
+                              key="C20:exception:time-dtype")
+            if okd:
+                od = np.asarray(od)
+                sc_ = float(np.max(np.abs(ref), initial=0)) + 1e-300
+                ctx.count("C20.time_axis_dtypes_tried")
+                ctx.check("C20.time-axis-dtype-does-not-matter", od.shape == ref.shape and bool(np.allclose(od.astype(float), ref, rtol=1e-12, atol=1e-12 * sc_)),
+                          c, {"dtype": dtp, "out_dtype": str(od.dtype), "got": od[:6], "want": ref[:6]}, key="C20:time-dtype:" + dtp)
     # per step classification
     dt = np.diff(t)
     inc = np.diff(out)
